@@ -160,6 +160,237 @@ class ClassInfo:
         return f"<Class {self.qualname}>"
 
 
+class _MatchDesugar(ast.NodeTransformer):
+    """`match x: case K(): ... case V: ... case _: ...` read as the if / elif chain it abbreviates, so that every analysis
+    (syntactic rules, effect engine, symbolic evaluator) sees one statement kind.  Understood: class patterns (with keyword
+    sub-patterns; one positional sub-pattern for the builtin scalar types), value patterns, None / True / False,
+    or-patterns, sequence patterns (with one star), captures, wildcards, `as` bindings and guards; a tuple display as the
+    subject is matched element by element.  A name bound by a pattern is an alias of a piece of the subject: guards are
+    read with the alias replaced by that piece, so the chain stays a plain if / elif.  Mapping patterns and class
+    patterns with positional sub-patterns of package classes leave the statement as it is (reported as unsupported)."""
+    n = 0
+    SCALARS = ("str", "int", "float", "bool", "bytes", "list", "tuple", "dict", "set", "frozenset")
+
+    @staticmethod
+    def _and(tests):
+        tests = [t for t in tests if t is not None]
+        if not tests:
+            return None
+        return tests[0] if len(tests) == 1 else ast.BoolOp(op=ast.And(), values=tests)
+
+    def _pat(self, pat, subj):
+        """(test expression or None for 'always', [(name, expression)] bindings)"""
+        if isinstance(pat, ast.MatchValue):
+            return ast.Compare(left=subj, ops=[ast.Eq()], comparators=[pat.value]), []
+        if isinstance(pat, ast.MatchSingleton):
+            return ast.Compare(left=subj, ops=[ast.Is()], comparators=[ast.Constant(value=pat.value)]), []
+        if isinstance(pat, ast.MatchClass):
+            tests = [ast.Call(func=ast.Name(id="isinstance", ctx=ast.Load()), args=[subj, pat.cls], keywords=[])]
+            binds = []
+            if pat.patterns:
+                if len(pat.patterns) != 1 or not (isinstance(pat.cls, ast.Name) and pat.cls.id in self.SCALARS):
+                    raise ValueError("class pattern with positional sub-patterns")
+                t, b = self._pat(pat.patterns[0], subj)     # builtin scalars match the subject itself
+                tests.append(t)
+                binds += b
+            for attr, sub in zip(pat.kwd_attrs, pat.kwd_patterns):
+                piece = ast.Attribute(value=subj, attr=attr, ctx=ast.Load())
+                tests.append(ast.Call(func=ast.Name(id="hasattr", ctx=ast.Load()), args=[subj, ast.Constant(value=attr)], keywords=[]))
+                t, b = self._pat(sub, piece)
+                tests.append(t)
+                binds += b
+            return self._and(tests), binds
+        if isinstance(pat, ast.MatchOr):
+            tests, binds = [], None
+            for sub in pat.patterns:
+                t, b = self._pat(sub, subj)
+                if t is None:
+                    return None, b
+                tests.append(t)
+                if binds is None:
+                    binds = b
+                elif [x for x, _ in b] != [x for x, _ in binds] or any(ast.dump(e1) != ast.dump(e2) for (_, e1), (_, e2) in zip(b, binds)):
+                    raise ValueError("alternatives bind names to different pieces")
+            return ast.BoolOp(op=ast.Or(), values=tests), binds or []
+        if isinstance(pat, ast.MatchAs):
+            binds = [(pat.name, subj)] if pat.name else []
+            if pat.pattern is None:
+                return None, binds
+            t, b = self._pat(pat.pattern, subj)
+            return t, b + binds
+        if isinstance(pat, ast.MatchSequence):
+            stars = [i for i, x in enumerate(pat.patterns) if isinstance(x, ast.MatchStar)]
+            if len(stars) > 1:
+                raise ValueError("two stars")
+            n = len(pat.patterns)
+            if isinstance(subj, ast.Tuple) and not stars and len(subj.elts) == n:
+                tests, binds = [], []          # `match a, b: case x, y:` -- element by element
+                for sub, piece in zip(pat.patterns, subj.elts):
+                    t, b = self._pat(sub, piece)
+                    tests.append(t)
+                    binds += b
+                return self._and(tests), binds
+            if isinstance(subj, ast.Tuple):
+                raise ValueError("tuple subject against a pattern of another shape")
+            tests = [ast.Call(func=ast.Name(id="isinstance", ctx=ast.Load()), args=[subj, ast.Tuple(elts=[ast.Name(id="list", ctx=ast.Load()), ast.Name(id="tuple", ctx=ast.Load())], ctx=ast.Load())], keywords=[])]
+            ln = ast.Call(func=ast.Name(id="len", ctx=ast.Load()), args=[subj], keywords=[])
+            fixed = n - len(stars)
+            tests.append(ast.Compare(left=ln, ops=[ast.GtE() if stars else ast.Eq()], comparators=[ast.Constant(value=fixed)]))
+            binds = []
+            k = stars[0] if stars else n
+            for i, sub in enumerate(pat.patterns):
+                if isinstance(sub, ast.MatchStar):
+                    if sub.name:
+                        hi = None if i == n - 1 else ast.UnaryOp(op=ast.USub(), operand=ast.Constant(value=n - 1 - i))
+                        binds.append((sub.name, ast.Subscript(value=subj, slice=ast.Slice(lower=ast.Constant(value=i), upper=hi), ctx=ast.Load())))
+                    continue
+                idx = ast.Constant(value=i) if i < k else ast.UnaryOp(op=ast.USub(), operand=ast.Constant(value=n - i))
+                t, b = self._pat(sub, ast.Subscript(value=subj, slice=idx, ctx=ast.Load()))
+                tests.append(t)
+                binds += b
+            return self._and(tests), binds
+        raise ValueError(type(pat).__name__)
+
+    def visit_Match(self, node: ast.Match):
+        self.generic_visit(node)
+        pre = []
+        subj = node.subject
+
+        def simple(e):
+            return isinstance(e, (ast.Name, ast.Constant)) or (isinstance(e, ast.Attribute) and simple(e.value))
+        if isinstance(subj, ast.Tuple):
+            elts = []
+            for e in subj.elts:
+                if simple(e):
+                    elts.append(e)
+                else:
+                    _MatchDesugar.n += 1
+                    tmp = f"__match{_MatchDesugar.n}"
+                    pre.append(ast.Assign(targets=[ast.Name(id=tmp, ctx=ast.Store())], value=e))
+                    elts.append(ast.Name(id=tmp, ctx=ast.Load()))
+            subj = ast.Tuple(elts=elts, ctx=ast.Load())
+        elif not simple(subj):
+            _MatchDesugar.n += 1
+            tmp = f"__match{_MatchDesugar.n}"
+            pre.append(ast.Assign(targets=[ast.Name(id=tmp, ctx=ast.Store())], value=subj))
+            subj = ast.Name(id=tmp, ctx=ast.Load())
+        try:
+            arms = []
+            for case in node.cases:
+                t, binds = self._pat(case.pattern, subj)
+                if case.guard is not None:
+                    import copy as _copy
+                    g = _copy.deepcopy(case.guard)
+                    mp = {nm: ex for nm, ex in binds}
+
+                    class _Sub(ast.NodeTransformer):
+                        def visit_Name(self, n_):
+                            return _copy.deepcopy(mp[n_.id]) if isinstance(n_.ctx, ast.Load) and n_.id in mp else n_
+                    g = _Sub().visit(g)
+                    t = g if t is None else ast.BoolOp(op=ast.And(), values=[t, g])
+                body = [ast.Assign(targets=[ast.Name(id=nm, ctx=ast.Store())], value=ex) for nm, ex in binds] + list(case.body)
+                arms.append((t, body))
+        except ValueError:
+            return node
+        chain = None
+        for t, body in reversed(arms):
+            if t is None:
+                chain = list(body)
+            else:
+                chain = [ast.If(test=t, body=list(body), orelse=chain or [])]
+        out = pre + (chain or [])
+        for st in out:
+            ast.copy_location(st, node)
+            ast.fix_missing_locations(st)
+        return out
+
+
+class _FunctionalDesugar(ast.NodeTransformer):
+    """`map(f, xs)` / `itertools.starmap(f, xs)` read as the generator expression they abbreviate, `[*map(f, xs)]` /
+    `list(map(f, xs))` as the list comprehension, `{*xs}` as `set(xs)`, and a local `swap = methodcaller("m", a, b)` with
+    its calls `swap(x)` as `x.m(a, b)`: the rules that look for `.replace_table(...)` calls, comprehensions over clause
+    containers and `set(find_(...))` then see the same shapes whichever spelling the code uses."""
+    n = 0
+
+    def _fresh(self):
+        _FunctionalDesugar.n += 1
+        return f"__it{_FunctionalDesugar.n}"
+
+    @staticmethod
+    def _callee_name(fn):
+        return fn.id if isinstance(fn, ast.Name) else (fn.attr if isinstance(fn, ast.Attribute) else None)
+
+    def _gen(self, call: ast.Call, as_list: bool):
+        nm = self._callee_name(call.func)
+        if nm not in ("map", "starmap") or len(call.args) != 2 or call.keywords:
+            return None
+        f, xs = call.args
+        v = self._fresh()
+        arg = ast.Starred(value=ast.Name(id=v, ctx=ast.Load()), ctx=ast.Load()) if nm == "starmap" else ast.Name(id=v, ctx=ast.Load())
+        elt = ast.Call(func=f, args=[arg], keywords=[])
+        comp = [ast.comprehension(target=ast.Name(id=v, ctx=ast.Store()), iter=xs, ifs=[], is_async=0)]
+        return ast.ListComp(elt=elt, generators=comp) if as_list else ast.GeneratorExp(elt=elt, generators=comp)
+
+    def visit_List(self, node: ast.List):
+        self.generic_visit(node)
+        if len(node.elts) == 1 and isinstance(node.elts[0], ast.Starred) and isinstance(node.elts[0].value, ast.GeneratorExp) and isinstance(node.ctx, ast.Load):
+            g = node.elts[0].value
+            return ast.copy_location(ast.ListComp(elt=g.elt, generators=g.generators), node)
+        return node
+
+    def visit_Set(self, node: ast.Set):
+        self.generic_visit(node)
+        if len(node.elts) == 1 and isinstance(node.elts[0], ast.Starred):
+            return ast.copy_location(ast.Call(func=ast.Name(id="set", ctx=ast.Load()), args=[node.elts[0].value], keywords=[]), node)
+        return node
+
+    def visit_Call(self, node: ast.Call):
+        self.generic_visit(node)
+        nm = self._callee_name(node.func)
+        if nm in ("list", "tuple") and isinstance(node.func, ast.Name) and len(node.args) == 1 and isinstance(node.args[0], ast.GeneratorExp) and not node.keywords and nm == "list":
+            g = node.args[0]
+            return ast.copy_location(ast.ListComp(elt=g.elt, generators=g.generators), node)
+        r = self._gen(node, False)
+        return ast.copy_location(r, node) if r is not None else node
+
+    def visit_FunctionDef(self, node: ast.FunctionDef):
+        self.generic_visit(node)
+        # local `name = methodcaller("m", *args)` bound once: its calls are method calls
+        binds = {}
+        stores = {}
+        for n_ in ast.walk(node):
+            if isinstance(n_, ast.Name) and isinstance(n_.ctx, ast.Store):
+                stores[n_.id] = stores.get(n_.id, 0) + 1
+        for n_ in ast.walk(node):
+            if (isinstance(n_, ast.Assign) and len(n_.targets) == 1 and isinstance(n_.targets[0], ast.Name) and stores.get(n_.targets[0].id) == 1
+                    and isinstance(n_.value, ast.Call) and self._callee_name(n_.value.func) == "methodcaller" and n_.value.args
+                    and isinstance(n_.value.args[0], ast.Constant) and isinstance(n_.value.args[0].value, str)):
+                binds[n_.targets[0].id] = n_.value
+        if binds:
+            class _MC(ast.NodeTransformer):
+                def visit_Call(self, c):
+                    self.generic_visit(c)
+                    if isinstance(c.func, ast.Name) and c.func.id in binds and len(c.args) == 1 and not c.keywords and not isinstance(c.args[0], ast.Starred):
+                        mc = binds[c.func.id]
+                        import copy as _copy
+                        return ast.copy_location(ast.Call(func=ast.Attribute(value=c.args[0], attr=mc.args[0].value, ctx=ast.Load()),
+                                                          args=[_copy.deepcopy(a) for a in mc.args[1:]], keywords=[_copy.deepcopy(k) for k in mc.keywords]), c)
+                    return c
+            node = _MC().visit(node)
+        return node
+
+
+def _desugar_match(tree: ast.AST) -> ast.AST:
+    if any(isinstance(n, ast.Match) for n in ast.walk(tree)):
+        tree = _MatchDesugar().visit(tree)
+        ast.fix_missing_locations(tree)
+    src_names = {n.id for n in ast.walk(tree) if isinstance(n, ast.Name)} | {n.attr for n in ast.walk(tree) if isinstance(n, ast.Attribute)}
+    if src_names & {"map", "starmap", "methodcaller"} or any(isinstance(n, ast.Set) and len(n.elts) == 1 and isinstance(n.elts[0], ast.Starred) for n in ast.walk(tree)):
+        tree = _FunctionalDesugar().visit(tree)
+        ast.fix_missing_locations(tree)
+    return tree
+
+
 class Module:
     def __init__(self, program: "Program", name: str, path: Path, relpath: str):
         self.program = program
@@ -169,7 +400,7 @@ class Module:
         self.relpath = relpath
         self.source = path.read_text()
         try:
-            self.tree = ast.parse(self.source, filename=str(path))
+            self.tree = _desugar_match(ast.parse(self.source, filename=str(path)))
         except SyntaxError as e:  # a tree that does not compile is not analysable
             raise AnalysisError(f"parse error in {relpath}: {e}") from None
         self.lines = self.source.splitlines()
